@@ -93,7 +93,7 @@ Section Registry.
     stack_family "EXEC" st_exec set_exec ++
     [ ("EXEC.STACKDEPTH", pure (g_depth st_exec));
       ("EXEC.DEFINE", pure (g_define st_exec set_exec (fun t => t)));
-      ("EXEC.=", pure exec_eq); ("EXEC.CMD", purep exec_cmd); ("EXEC.LOOP", pure exec_loop);
+      ("EXEC.=", pure exec_eq); ("EXEC.CMD", pure exec_cmd); ("EXEC.LOOP", pure exec_loop);
       ("EXEC.ID", pure exec_id); ("EXEC.IF", pure exec_if); ("EXEC.K", pure exec_k);
       ("EXEC.S", pure exec_s); ("EXEC.Y", pure exec_y) ].
 
